@@ -1,4 +1,5 @@
 import WV.Gen.Shared
+import WV.Gen.Failed
 import WV.Gen.ApiSkel
 
 /-!
@@ -30,5 +31,11 @@ theorem eventual_queue_is_plain_fifo :
     ApiSkel.skeleton "OneShotObserver.fire_if_not_fired" = [("if", "self.fire")] ∧
     ApiSkel.skeleton "OneShotObserver.when_fired" = [("-", "Deferred"), ("-", "self._maybe_call_observers")] := by
   decide
+
+/-- **translator_covers_everything** — every generated module (`WV/Gen/*`) was regenerated from the working tree in
+    this run.  When the source has been rewritten into a shape the translator cannot read any more (a method it parses
+    is gone, a class moved), the module keeps its previous text and is named in `Gen.Failed.failed`: the theorems are
+    then about a stale translation, which is a broken tie, not a proof. -/
+theorem translator_covers_everything : Failed.failed = [] := by decide
 
 end WV.Props.Common
